@@ -46,3 +46,19 @@ Qed.
 (* the quoting decision of the current source is the one the finding classes were established against *)
 Theorem C04_needs_quotes_pinned : forall s, needs_quotes s = needs_quotes_pinned s.
 Proof. exact needs_quotes_is_pinned. Qed.
+
+(* ---- scalars in assignment position, at every nesting depth, through the TEXT ---- *)
+From OV Require Import Lex.Lexer Syn.Ast Syn.Emitter Syn.Parser Rt.TokRound Rt.LexLinkBase Rt.LexLinkSteps Rt.LexLink Rt.LexLinkEx.
+(* every document made of assignments KEY::scalar and nested blocks, where each scalar is null, a boolean, a number in
+   -?d+(.d+)?([eE][+-]?d+)? whose canonical text the number oracle reproduces, or a string the emitter quotes with no
+   backslash directly before n/t (any code points, incl. quote, backslash, newline, tab), is read back from its
+   emitted text with the same value AND kind at every position *)
+Theorem C04_scalars_survive_text_core :
+  forall cls numcanon holo_ok strict sp d,
+    core_doc d = true -> lex_safe_doc d = true -> nums_ok_l numcanon (dsections d) ->
+    exists warns, parse_model cls numcanon holo_ok strict (lines_of (emit sp d)) = PRDoc d [] warns /\ Forall advisory warns.
+Proof. exact text_roundtrip_core. Qed.
+
+(* the excluded string class is needed: a backslash directly before n is read back as a newline (finding C04-escape-order) *)
+Theorem C04_scalars_survive_refuted_escape_order : ~ lex_emit_core_full.
+Proof. exact lex_emit_core_full_refuted. Qed.
